@@ -339,6 +339,10 @@ func cmdCheck(eng *Engine, args []string) int {
 		level = "other"
 		expl = fmt.Sprintf("%d of %d obligations discharged; %d open known findings; %d violations", nOK, nOb, len(knownHit), nViol)
 	}
+	if id == "C06" && level == "proof" {
+		level = "other"
+		expl = fmt.Sprintf("mechanical sufficient conditions on the SSA of the working tree: %d map-order/global-write results and %d external call sites with a declared contract in %d functions; assumed map ranges are listed under assumptions", nOb, externSites, len(fnNames))
+	}
 	ev := evidence{PropertyID: id, Tier: tier, Seed: seed, Level: level, WallS: time.Since(t0).Seconds(), Violations: nViol, Assumptions: as,
 		Coverage: map[string]any{
 			"obligations":              nOb,
@@ -360,6 +364,8 @@ func cmdCheck(eng *Engine, args []string) int {
 		}}
 	if expl == "" {
 		delete(ev.Coverage, "explanation")
+	} else {
+		ev.Coverage["explanation"] = expl
 	}
 	os.MkdirAll(filepath.Join(verifDir, "evidence"), 0o755)
 	b, _ := json.MarshalIndent(ev, "", " ")
